@@ -120,8 +120,8 @@ def short(data: str) -> bool:
 def total(data: str) -> bool:
     """
     pre: 12 <= len(data) <= 12 + B['body'] and all(ord(c) < 256 for c in data)
-    pre: data[4] == "\\0" and data[6] == "\\0" and data[8] == "\\0" and data[10] == "\\0"
-    pre: data[5] <= "\\x02" and data[7] <= "\\x02" and data[9] <= "\\x02" and data[11] <= "\\x02"
+    pre: ord(data[4]) == 0 and ord(data[6]) == 0 and ord(data[8]) == 0 and ord(data[10]) == 0
+    pre: ord(data[5]) <= 2 and ord(data[7]) <= 2 and ord(data[9]) <= 2 and ord(data[11]) <= 2
     post: _
     """
     r, m = _decode(data)
